@@ -28,6 +28,10 @@ Lbl(f, detail) == [p |-> "C12", f |-> f, d |-> detail]
 If(cond, x)    == IF cond THEN {x} ELSE {}
 
 \* SetRules: accepted iff every rule is valid
+\* ... and an accepted rule set IS the stored rule set from then on ("authorised iff some stored rule matches" speaks
+\* about the rules that were accepted last; "with no rules stored nothing is authorised": an accepted empty list stores none)
+V_Stored(rs, okR, rec) ==
+     If(okR /\ rec.st.rules # rs, Lbl("accepted_rules_not_the_stored_rules", IF Len(rs) = 0 THEN "empty_list" ELSE "non_empty"))
 V_Set(rs, okR) ==
      If(okR /\ ~ValidRuleSet(rs), Lbl("ruleset_accepted_but_invalid", RuleSetDefect(rs)))
 \cup If(~okR /\ ValidRuleSet(rs), Lbl("ruleset_rejected_but_valid",
@@ -56,7 +60,7 @@ TraceStep ==
      /\ IF rec.ev.act = "Reset" THEN UNCHANGED <<bad, div, nsteps>>
         ELSE IF rec.ev.act = "SetRules"
         THEN /\ nsteps' = nsteps + 1
-             /\ bad' = bad \cup {[tr |-> rec.tr, i |-> rec.i, v |-> v] : v \in V_Set(rec.ev.rules, rec.code = 0)}
+             /\ bad' = bad \cup {[tr |-> rec.tr, i |-> rec.i, v |-> v] : v \in V_Set(rec.ev.rules, rec.code = 0) \cup V_Stored(rec.ev.rules, rec.code = 0, rec)}
              /\ div' = div \cup {[tr |-> rec.tr, i |-> rec.i, v |-> v] : v \in D_Set(rec.ev.rules, rec.code = 0, rec)}
         ELSE IF Len(rec.ans) # Len(rec.ev.ts)
         THEN /\ nsteps' = nsteps + 1 /\ bad' = bad
